@@ -52,7 +52,7 @@ def build_cases(tier, seed=SEED):
                         if b in ('call', 'ev_call_f', 'c_eval') and m: continue
                         if i % 2 and (a, b) not in PAIRS_SCALAR[:2]: continue
                         cs.add('pair', a, list(tup), mask=m, uf=True, entry2=b)
-                for a, b in PAIRS_GRAD:
+                for a, b in (PAIRS_GRAD if D <= 7 else []):        # the gradient refuses 8-D and 9-D tables by exception (C05 / C18)
                     if i % 2 and (a, b) not in PAIRS_GRAD[:2]: continue
                     cs.add('pair', a, list(tup), uf=True, entry2=b)
                 dv = [rng.randrange(0, o + 2) for o in pat]
